@@ -1,0 +1,62 @@
+//go:build verif
+
+package legacy
+
+import (
+	networking "k8s.io/api/networking/v1"
+	listersnetworking "k8s.io/client-go/listers/networking/v1"
+	"k8s.io/client-go/tools/cache"
+
+	"github.com/jcmoraisjr/haproxy-ingress/pkg/common/ingress/controller"
+	convtypes "github.com/jcmoraisjr/haproxy-ingress/pkg/converters/types"
+	"github.com/jcmoraisjr/haproxy-ingress/pkg/types"
+)
+
+// VerifLegacyCache is the part of the legacy k8scache that can be built offline: the
+// class selection (IsValidIngress, IsValidIngressClass, GetIngress, GetIngressList)
+// over client-go listers fed from in-memory indexers.
+type VerifLegacyCache struct {
+	c *k8scache
+}
+
+// VerifNewLegacyCache builds a legacy k8scache holding only the configuration, a
+// logger, and the Ingress / IngressClass listers over the given objects.
+func VerifNewLegacyCache(logger types.Logger, cfg *controller.Configuration, dynconfig *convtypes.DynamicConfig,
+	classes []*networking.IngressClass, ingresses []*networking.Ingress) *VerifLegacyCache {
+	clsIndexer := cache.NewIndexer(cache.MetaNamespaceKeyFunc, cache.Indexers{})
+	for _, cls := range classes {
+		_ = clsIndexer.Add(cls)
+	}
+	ingIndexer := cache.NewIndexer(cache.MetaNamespaceKeyFunc, cache.Indexers{cache.NamespaceIndex: cache.MetaNamespaceIndexFunc})
+	for _, ing := range ingresses {
+		_ = ingIndexer.Add(ing)
+	}
+	return &VerifLegacyCache{c: &k8scache{
+		logger:        logger,
+		cfg:           cfg,
+		dynamicConfig: dynconfig,
+		listers: &listers{
+			logger:             logger,
+			ingressClassLister: listersnetworking.NewIngressClassLister(clsIndexer),
+			ingressLister:      listersnetworking.NewIngressLister(ingIndexer),
+		},
+	}}
+}
+
+// IsValidIngress is the legacy decision.
+func (v *VerifLegacyCache) IsValidIngress(ing *networking.Ingress) bool { return v.c.IsValidIngress(ing) }
+
+// GetIngress is the legacy getter.
+func (v *VerifLegacyCache) GetIngress(name string) (*networking.Ingress, error) {
+	return v.c.GetIngress(name)
+}
+
+// GetIngressList is the legacy list.
+func (v *VerifLegacyCache) GetIngressList() ([]*networking.Ingress, error) {
+	return v.c.GetIngressList()
+}
+
+// BuildResourceName is the legacy copy of buildResourceName.
+func (v *VerifLegacyCache) BuildResourceName(defaultNamespace, kind, resourceName string, allowCrossNamespace bool) (string, string, error) {
+	return v.c.buildResourceName(defaultNamespace, kind, resourceName, allowCrossNamespace)
+}
